@@ -1,5 +1,6 @@
 import Momo.Proof.ArrSegSqrt
 import Momo.Proof.TrEqMisc
+import Momo.Proof.TrEqWave2Arr
 /-!
 # C05 — Array-like containers equal the abstract sequence, even with aliased/empty args
 
@@ -237,5 +238,34 @@ theorem C05_growCapacity_translated (g : Bool) (capacity minNew : Nat) (reserve 
   exact ⟨rfl, growCapacity_ge g capacity minNew reserve linear⟩
 
 example : Tr.arr_GrowCapacity true 200 201 false false = 292 := by decide
+
+/-! #### second wave (tools/trspecs/Wave2.py → `Momo/Translated/Wave2.lean`; equivalences: `Proof/TrEqWave2Arr.lean`) -/
+
+/-- **`Array` capacity tests, from the header text.** The model's `Data::Reallocate` is its C++ text with the three tests
+(`GetCapacity() == internalCapacity`, `capacityLin <= internalCapacity || capacityExp <= internalCapacity`,
+`!canReallocate || capacityLin < capacityExp`) and `Data::GetCapacity` translated from Array.h; `Reserve` and `Shrink(capacity)`
+are their text with the translated tests and the translated shrink target; `Data::Reset` takes its heap branch exactly when the
+translated `capacity > internalCapacity` holds. -/
+theorem C05_capacity_tests_translated {α : Type} (cfg : Cfg) (s : State α) (lin exp n : Nat) (newCells : Cells α) :
+    (reallocate cfg s lin exp =
+      if Tr.arr_Reallocate_internal cfg.intCap (Tr.arr_Data_GetCapacity cfg.intCap s.internal s.cap) = true then (false, s, [])
+      else if Tr.arr_Reallocate_small cfg.intCap lin exp = true then (false, s, [])
+      else if (Tr.arr_Reallocate_tryInplace cfg.canRealloc lin exp && cfg.canInplace) = true then
+        if s.cap = lin then (true, s, [])
+        else if s.oracle then (true, { s with cap := lin }, [.inplace s.cap lin true])
+        else if cfg.canRealloc then (true, { s with cap := exp }, .inplace s.cap lin false :: reallocEv s.cap exp)
+        else (false, s, [.inplace s.cap lin false])
+      else if cfg.canRealloc then (true, { s with cap := exp }, reallocEv s.cap exp)
+      else (false, s, [])) ∧
+    reserve cfg s n = (if Tr.arr_Reserve_grows n (Tr.arr_Data_GetCapacity cfg.intCap s.internal s.cap) = true
+                       then grow cfg s n true else (s, [])) ∧
+    shrink cfg s n = (if Tr.arr_Shrink_keeps cfg.intCap (Tr.arr_Data_GetCapacity cfg.intCap s.internal s.cap) n = true then (s, [])
+                      else moveTo cfg s (Tr.arr_Shrink_target s.cells.length n) (Tr.arr_Shrink_target s.cells.length n)) ∧
+    (Tr.arr_Reset_heap cfg.intCap n = true →
+      reset cfg s n newCells = ({ s with cells := newCells, cap := n, internal := false },
+        .alloc n :: (if capacity cfg s > cfg.intCap then [.dealloc s.cap] else []))) :=
+  ⟨TrEq.reallocate_translated cfg s lin exp, TrEq.reserve_shrink_translated cfg s n newCells⟩
+
+example : Tr.arr_Shrink_target 7 3 = 7 ∧ Tr.arr_Reallocate_small 4 4 9 = true ∧ Tr.arr_Data_GetCapacity 4 true 100 = 4 := by decide
 
 end Momo.Arr
